@@ -140,6 +140,45 @@ func (e *Exec) callBuiltin(b *ssa.Builtin, args []Value, c *ssa.CallCommon) Valu
 		ch.Closed = true
 		e.yield("close")
 		return nil
+	case "String": // unsafe.String(ptr *byte, len)
+		p := args[0].(Ptr)
+		n := e.argInt(args[1], "unsafe.String len")
+		if n == 0 {
+			return &StrV{}
+		}
+		arr, off := e.elemArray(p)
+		if arr == nil || off+n > len(arr.Kids) {
+			e.ooe("unsafe.String on a pointer that is not into a byte array")
+		}
+		b := make([]*Term, n)
+		for i := range b {
+			b[i] = arr.Kids[off+i].V.(*Term)
+		}
+		return &StrV{B: b}
+	case "StringData": // unsafe.StringData(s) *byte (read-only view)
+		s := e.plainStr(args[0].(*StrV))
+		if len(s.B) == 0 {
+			return Ptr{}
+		}
+		sl := e.bytesToSlice(s.B)
+		return Ptr{L: sl.Arr.Kids[0]}
+	case "SliceData": // unsafe.SliceData(s) *T
+		s := args[0].(SliceV)
+		if s.Arr == nil || s.Cap == 0 {
+			return Ptr{}
+		}
+		return Ptr{L: s.Arr.Kids[s.Off]}
+	case "Slice": // unsafe.Slice(ptr *T, len)
+		p := args[0].(Ptr)
+		n := e.argInt(args[1], "unsafe.Slice len")
+		if p.IsNil() {
+			return SliceV{}
+		}
+		arr, off := e.elemArray(p)
+		if arr == nil || off+n > len(arr.Kids) {
+			e.ooe("unsafe.Slice on a pointer that is not into an array")
+		}
+		return SliceV{Arr: arr, Off: off, Len: n, Cap: n}
 	case "ssa:wrapnilchk":
 		p := args[0].(Ptr)
 		if p.IsNil() {
